@@ -167,6 +167,11 @@ REPLAY_PATCHES = {
     # stubs whose nondeterminism must follow the model during native replay: (repo file, regex, replacement)
     "memhash": ("parsed_serialize.go", r"func memHash\(data \[\]byte\) uint64 \{.*?\n\}\n",
                 'func memHash(data []byte) uint64 { return nondetU64("memhash") }\n'),
+    # U3 leaves the message bytes free: the replay routes both kernel wrappers to the native twin of the contract stub
+    "kernelcontract": ("find_subroutines_amd64.go",
+                       r"(func find_structural_bits_in_slice(?:_avx512)?\(buf \[\]byte[^{]*?\(processed uint64\) \{)\n.*?\n\}\n",
+                       r"\1\n\treturn verifKernelContract(buf, prev_iter_ends_odd_backslash, prev_iter_inside_quote, error_mask, "
+                       r"prev_iter_ends_pseudo_pred, indexes, index, carried, position, ndjson)\n}\n", 2),
 }
 
 
@@ -181,10 +186,11 @@ def replay(files, violation, known=(), timeout=300, patches=(), scaled_files=Non
     for fn, path in (scaled_files or {}).items():
         ov[fn] = open(path).read()          # same constant scaling as in the encoding
     for pname in patches:
-        fn, rx, repl = REPLAY_PATCHES[pname]
+        fn, rx, repl = REPLAY_PATCHES[pname][:3]
+        expect_n = REPLAY_PATCHES[pname][3] if len(REPLAY_PATCHES[pname]) > 3 else 1
         src = ov.get(fn) or open(os.path.join(common.REPO, fn)).read()
         new, n = re.subn(rx, repl, src, flags=re.S)
-        if n != 1:
+        if n != expect_n:
             return False, "replay patch %s matched %d times in %s" % (pname, n, fn)
         ov[fn] = new
     extra = ["-ldflags=-checklinkname=0"] if any("//go:linkname" in t for t in ov.values()) else []
@@ -234,6 +240,13 @@ def probe_prefixes(prog, entry, opts, depth, intr_factory=None, deadline_s=None)
     out = [(tuple(p), False) for p in eng.probe_out]
     for f in fin:
         out.append((tuple(f.choices), True))      # complete path with fewer choices: run it exactly
+    # a path that ends in a violated (or undecided) obligation before making `depth` choices is neither a completed path
+    # nor a recorded prefix: it must get its own exact job, or the violation would be lost by the split
+    cut = set(p for p, _ in out if len(p) >= depth)
+    for ob in list(eng.violations) + list(eng.unknowns):
+        s_ = getattr(ob, "st", None) or getattr(ob, "state", None)
+        if s_ is not None and s_.status == "dead" and tuple(s_.choices) not in cut:
+            out.append((tuple(s_.choices), True))
     seen = []
     for p in out:
         if p not in seen:
